@@ -12,6 +12,10 @@ model, translated calendar vs the real functions), here with every horizon of 1.
 Predicate on the implementation's own arrays with a datetime calendar: first hours 0, every month
 end a breakpoint in order, last hour = Σ month hours, monthly[m+12] == monthly[m] on the object,
 strict increase whenever `windowsClear` (re-implemented here from the reported days/durations) holds.
+History stream (every tier): call sequences of HybridLoad objects with years [2019] / [2020] (leap,
+8784-hour profile) / [2021], different horizons and direct calendar-helper calls, each sequence in one
+fresh interpreter; every object must meet the axis predicate of its own calendar year, equal the same
+object built alone, and agree with the (memoryless) model.
 """
 from __future__ import annotations
 
@@ -31,14 +35,14 @@ MANIFEST = {
 }
 
 
-def windows_clear(rec, i, start=1):
+def windows_clear(rec, i, start=1, year=2019):
     """The decidable hypothesis of theorem strictly_increasing for retained month i, from the
     implementation's reported (pcl, phl, dayc, dayh, dcl, dhl) — exact arithmetic on the doubles."""
     pcl, phl, dayc, dayh, dcl, dhl = rec
     if not all(math.isfinite(v) for v in (pcl, phl, dcl, dhl)):
         return False
-    prev = Fraction(H.oracle_month_end(i - 1))
-    lm = Fraction(H.oracle_month_end(i))
+    prev = Fraction(H.oracle_month_end(i - 1, year))
+    lm = Fraction(H.oracle_month_end(i, year))
     fmh = prev + 1
     nc = fmh + 24 * dayc + 12
     nh = fmh + 24 * dayh + 12
@@ -61,29 +65,29 @@ def windows_clear(rec, i, start=1):
     return ok
 
 
-def axis_predicate(ctx, label, load, hour, recs12, start, end, replay):
+def axis_predicate(ctx, label, load, hour, recs12, start, end, replay, year=2019, key_prefix=""):
     """Returns the number of retained months whose windows are not clear."""
     bad = None
-    if not (hour[0] == 0.0 and load[0] == 0.0 and load[1] == 0.0 and hour[1] == float(H.oracle_month_end(start - 1))):
-        bad = ("axis-start", f"first entries are (load, hour) = {list(zip(load[:2], hour[:2]))}, expected (0, 0), (0, {H.oracle_month_end(start - 1)})")
+    if not (hour[0] == 0.0 and load[0] == 0.0 and load[1] == 0.0 and hour[1] == float(H.oracle_month_end(start - 1, year))):
+        bad = ("axis-start", f"first entries are (load, hour) = {list(zip(load[:2], hour[:2]))}, expected (0, 0), (0, {H.oracle_month_end(start - 1, year)})")
     # month ends present, in order
     j = 2
     for i in range(start, end + 1):
-        e = float(H.oracle_month_end(i))
+        e = float(H.oracle_month_end(i, year))
         while j < len(hour) and hour[j] != e:
             j += 1
         if j >= len(hour):
             bad = bad or ("month-end-missing", f"last hour of month {i} ({e}) is not a breakpoint (in order) of the hour array")
             break
         j += 1
-    want_last = float(H.oracle_month_end(end)) if end >= start else float(H.oracle_month_end(start - 1))
+    want_last = float(H.oracle_month_end(end, year)) if end >= start else float(H.oracle_month_end(start - 1, year))
     if hour[-1] != want_last:
         bad = bad or ("axis-end", f"last breakpoint {hour[-1]} but the horizon of {end} months ends at hour {want_last}")
     not_clear = 0
     for i in range(start, end + 1):
         if H.ipf(i, start, end):
             r = recs12[(i - 1) % 12]
-            if not windows_clear(r, i, start):
+            if not windows_clear(r, i, start, year):
                 not_clear += 1
     if not_clear == 0 and bad is None:
         hs = hour[2:]
@@ -93,8 +97,91 @@ def axis_predicate(ctx, label, load, hour, recs12, start, end, replay):
         if k is not None:
             bad = ("axis-order", f"all retained windows are clear but breakpoints {hs[max(k,0)]} , {hs[k+1]} (positions {k+2},{k+3}) do not increase")
     if bad:
-        ctx.finding(bad[0], f"{label}: {bad[1]}", replay)
+        ctx.finding(key_prefix + bad[0], f"{label}: {bad[1]}", replay)
     return not_clear
+
+
+def history_stream(ctx, phys, n_seq):
+    """Sequences of HybridLoad constructions with different `years` ([2019], [2020] leap with an
+    8784-hour profile, [2021]) and horizons, interleaved with direct calls of the calendar helpers,
+    each sequence executed in order inside one fresh interpreter.  Every object must (a) satisfy the
+    axis predicate for ITS OWN calendar year (datetime oracle), (b) be bit-identical to the same object
+    built alone in a fresh interpreter, (c) agree with the Lean model (which has no memory).
+    The replay of a finding is the call sequence up to and including the failing call."""
+    from concurrent.futures import ThreadPoolExecutor
+    import json
+
+    seqs = H.gen_histories(ctx.rng, n_seq)
+    # the same objects, each alone in a fresh interpreter
+    distinct = {}
+    for seq in seqs:
+        for it in seq:
+            if it["op"] == "hybrid":
+                distinct.setdefault(json.dumps(it, sort_keys=True), it)
+    keys = list(distinct)
+    with ThreadPoolExecutor(8) as ex:
+        seq_out = list(ex.map(lambda q: H.history_subprocess(q, phys), seqs))
+        ref_out = list(ex.map(lambda k: H.history_subprocess([distinct[k]], phys), keys))
+    ref = {}
+    for k, o in zip(keys, ref_out):
+        if "error" in o:
+            ctx.infra("history reference run failed: " + o["error"][-200:])
+            return
+        ref[k] = o["results"][0]
+    # the model on every distinct object
+    lines = []
+    for k in keys:
+        it = distinct[k]
+        lines.append(H.full_line(dict(it["case"], ends=[it["months"]]), phys))
+    mouts = H.drive(ctx, lines)
+    model = {}
+    if mouts is not None:
+        for k, o in zip(keys, mouts):
+            model[k] = H.parse_full(o, [distinct[k]["months"]])
+    for q, (seq, o) in enumerate(zip(seqs, seq_out)):
+        if "error" in o:
+            ctx.infra("history run failed: " + o["error"][-200:])
+            continue
+        for pos, (it, res) in enumerate(zip(seq, o["results"])):
+            replay = {"call_sequence_in_one_process": seq[:pos + 1], "failing_call": pos, "phys": phys,
+                      "how": "hybridlib.history_run(call_sequence, phys) in a fresh interpreter (python harness/hybridlib.py --history)"}
+            if it["op"] == "cal":
+                ctx.count("history:helper-call")
+                m, y = it["month"], it["year"]
+                want = [H.oracle_month_hours(m, y) // 24, H.oracle_month_end(m - 1, y) + 1, H.oracle_month_end(m, y)]
+                ctx.case(("history-cal", q, pos, m, y), True)
+                if res["cal"] != want:
+                    ctx.finding("history-calendar-helper", f"call {pos} of sequence {q}: (monthdays, first_month_hour, last_month_hour)({m}, [{y}]) = {res['cal']} "
+                                f"after {pos} earlier call(s); the {y} calendar says {want}", replay)
+                continue
+            y, n = it["years"][0], it["months"]
+            k = json.dumps(it, sort_keys=True)
+            label = f"history sequence {q}, call {pos}: HybridLoad(years=[{y}], {n} months, {it['case']['kind']})"
+            ctx.count(f"history:object-years-{y}")
+            ctx.count("history:position-" + ("first" if pos == 0 else "later"))
+            ctx.case(("history", q, pos, y, n, it["case"]["kind"], it["case"]["pseed"]), True,
+                     {"sequence": [(c.get("years"), c.get("months")) if c["op"] == "hybrid" else ("cal", c["month"], c["year"]) for c in seq]} if q < 2 and pos == len(seq) - 1 else None)
+            if "raise" in res:
+                if res != ref[k]:
+                    ctx.finding("history-dependence", f"{label} raises {res['raise']} but the same object built alone does not", replay)
+                continue
+            recs12 = [(r[2], r[3], r[6], r[7], r[8], r[9]) for r in res["monthly"]]
+            axis_predicate(ctx, label, res["load"], res["hour"], recs12, 1, n, replay, year=y, key_prefix="history-")
+            if res != ref[k]:
+                r0 = ref[k]
+                what = "raises" if "raise" in r0 else next((f"{f}[{j}] = {a} vs {b} alone" for f in ("hour", "load") for j, (a, b) in
+                                                            enumerate(zip(res[f], r0[f])) if a != b and not (a != a and b != b)), None) \
+                    or ("monthly arrays differ" if res["monthly"] != r0["monthly"] else None)
+                if what:
+                    ctx.finding("history-dependence", f"{label} differs from the same object built alone in a fresh interpreter: {what}", replay)
+            mo = model.get(k)
+            if mo and "runs" in mo and not mo.get("nan") and n in mo["runs"]:
+                dd = H.compare_seq({"load": res["load"], "hour": res["hour"]}, mo["runs"][n])
+                if dd is None and not H.degenerate_dirs(mo["monthly"]):
+                    dd = H.compare_monthly(res["monthly"], mo["monthly"])
+                if dd is not None:
+                    H._disagree(ctx, "hybrid-history-correspondence", {"sequence": q, "call": pos, "item": it}, dd)
+    ctx.count("history:sequences", len(seqs))
 
 
 def run(ctx: core.Ctx):
@@ -163,6 +250,9 @@ def run(ctx: core.Ctx):
                 ctx.count("runs-with-negative-time-step-warning")
                 if nc == 0:
                     ctx.finding("warning-with-clear-windows", f"{kind} end={e}: the implementation warned about a negative time step although all windows are clear", replay)
+
+    # ------------------------------------------------------------------ call history: several objects / helper calls in ONE process
+    history_stream(ctx, physs[0], 8 if quick else 40)
 
     # ------------------------------------------------------------------ arbitrary monthly arrays (incl. start_month > 1)
     arr = H.explore_process_only(ctx, 300 if quick else 6000)
